@@ -76,6 +76,28 @@ Theorem C07_model_reorth_relation : forall (F : rcfType) (eps bt : F) (n : nat) 
   (forall j, (j < size Vs)%N -> size (nth [::] Vs j) = n) -> size Vs = i1 ->
   size f = n -> size h = i1 -> size Vf = i1 -> krel n Vs w f h ->
   let '(f', h', beta') := Arnoldi.arn_reorth (OpsF F) eps fuel n Vs i1 bt f h beta Vf err in
-  (f' = nseq n 0 /\ beta' = 0) \/ krel n Vs w f' h'.
+  (f' = nseq n 0 /\ beta' = 0) \/ (krel n Vs w f' h' /\ size h' = i1).
 Proof. move=> F eps bt n Vs i1 w fuel f h beta Vf err; exact: arn_reorth_relation. Qed.
 Print Assumptions C07_model_reorth_relation.
+
+(* one WHOLE step of the model of Arnoldi::factorize_from (arnoldi_step: normalisation or breakdown restart through expand_basis, operator
+   application, Gram-Schmidt, up to five re-orthogonalisation passes, update of H): the new basis vector v_i, column i of H and the new
+   residual satisfy  A v_i = sum_(j<=i) H(j,i) v_j + f  (or the residual was dropped: f = 0, beta = 0) - for every state it is started from *)
+Theorem C07_model_step_column : forall (F : rcfType) (near0 eps l717 : F) (Arows : seq (seq F)) (n m : nat) (bt : F) (i : nat) (Fc : fac (OpsF F)) (cnt : nat),
+  size Arows = n -> (i < m)%N -> size (fV (OpsF F) Fc) = m -> (forall j, (j < m)%N -> size (nth [::] (fV (OpsF F) Fc) j) = n) -> size (fH (OpsF F) Fc) = m ->
+  let '(F', cnt') := Arnoldi.arnoldi_step (OpsF F) near0 eps l717 Arows n m bt i (Fc, cnt) in
+  let v := nth [::] (fV (OpsF F) F') i in
+  size v = n ->
+  (ff (OpsF F) F' = nseq n 0 /\ fbeta (OpsF F) F' = 0) \/
+  krel n (take i.+1 (fV (OpsF F) F')) (apply_op (OpsF F) Arows v) (ff (OpsF F) F') (take i.+1 (nth [::] (fH (OpsF F) F') i)).
+Proof. move=> F near0 eps l717 Arows n m bt i Fc cnt; exact: arnoldi_step_column. Qed.
+Print Assumptions C07_model_step_column.
+
+(* the three-term recurrence written by the two `map ... combine` statements of the model of Lanczos::factorize_from *)
+Theorem C07_model_lanczos_recurrence : forall (F : rcfType) (n : nat) (w u v : seq F) (beta alpha : F) (r : nat),
+  size w = n -> size u = n -> size v = n -> (r < n)%N ->
+  let w' := List.map (fun p : F * F => p.1 - beta * p.2) (List.combine w u) in
+  let f := List.map (fun p : F * F => p.1 - alpha * p.2) (List.combine w' v) in
+  beta * nth 0 u r + alpha * nth 0 v r + nth 0 f r = nth 0 w r.
+Proof. move=> F n w u v beta alpha r; exact: lanczos_recurrence. Qed.
+Print Assumptions C07_model_lanczos_recurrence.
